@@ -432,7 +432,9 @@ def _feed(recipe, meter, temp):
     f = int(recipe.get("feed") or 0)
     if f == 0:
         return meter, temp
-    if f in (1, 2):
+    if f in (1, 2) and (meter is not None or recipe["fam"] == "caltrack"):
+        # (daily/billing with the meter series omitted: the weather feed alone defines the zone of the data object, so
+        # it stays in the meter's zone there — a UTC feed would rightly be refused by the model's timezone guard)
         temp = temp.tz_convert("UTC")
     if f in (1, 3):
         temp = temp.rename("temperature").to_frame()
